@@ -28,9 +28,9 @@ def main():
     if a.replay:
         payload = json.load(open(a.replay))
         return mod.replay(payload)
-    ok, log = core.ensure_build()
+    ok, log, failed = core.ensure_build()
     audit = core.audit_proofs(pid)
-    if not ok:
+    if not ok and core.build_concerns(pid, failed):
         audit['problems'].append('make reported errors: ' + log[-500:])
     try:
         out = mod.run(seed, a.tier)
